@@ -193,7 +193,7 @@ def u_read_body(c):
     cl = c.str("content_length_text", latin1=True) if has_cl else None
     if has_cl and c.symbolic:
         c.assume(Not(cl.contains(",")))
-    if has_cl and not c.symbolic:
+    if has_cl and not c.symbolic and c.model is None:
         cl = c.rng.choice(["0", "5", "17", "+3", "1_0", "abc", "", " 7", "99999999999", cl])
         if "," in cl:
             cl = "3"
